@@ -15,7 +15,7 @@ deriving Repr
 
 inductive Ev
   | s433 (refused : Bytes)        -- ERR_NICKNAMEINUSE for `refused`
-  | s001 (nick : Bytes)           -- welcome, addressing the client as `nick`
+  | s001 (nick : Bytes) (mask : Bool)  -- welcome, addressing the client as `nick`; its text may or may not end in nick!user@host
   | sNick (new : Bytes)           -- NICK line for the client itself: confirmation or forced change
   | sOther (frm to : Bytes)       -- NICK line of another user
 deriving Repr
@@ -23,7 +23,7 @@ deriving Repr
 /-- what a protocol-conformant server may send in state `s` -/
 def conforms (s : Srv) : Ev → Bool
   | .s433 r => if s.registered then r != s.nick else r == s.nick
-  | .s001 n => !s.registered && !n.isEmpty
+  | .s001 n _ => !s.registered && !n.isEmpty
   | .sNick new => s.registered && !new.isEmpty && new != s.nick
   | .sOther frm to => frm != s.nick && to != s.nick && !frm.isEmpty
 
@@ -31,14 +31,15 @@ def conforms (s : Srv) : Ev → Bool
 welcome a collision makes the client ask for `gen refused`, which becomes the pending nick) -/
 def step (gen : Bytes → Bytes) (s : Srv) : Ev → Srv
   | .s433 r => if s.registered then s else { s with nick := gen r }
-  | .s001 n => { registered := true, nick := n }
+  | .s001 n _ => { registered := true, nick := n }
   | .sNick new => { s with nick := new }
   | .sOther _ _ => s
 
 /-- the line the server puts on the wire for the event -/
 def lineOf (s : Srv) : Ev → Bytes
   | .s433 r => lit ":irc.test 433 " ++ (if s.registered then s.nick else [42]) ++ [32] ++ r ++ lit " :Nickname is already in use"
-  | .s001 n => lit ":irc.test 001 " ++ n ++ lit " :Welcome to the network " ++ n ++ lit "!ident@host.example"
+  | .s001 n true => lit ":irc.test 001 " ++ n ++ lit " :Welcome to the network " ++ n ++ lit "!ident@host.example"
+  | .s001 n false => lit ":irc.test 001 " ++ n ++ lit " :Welcome to the Internet Relay Network " ++ n
   | .sNick new => [58] ++ s.nick ++ lit "!ident@host.example NICK " ++ new
   | .sOther frm to => [58] ++ frm ++ lit "!o@other.example NICK :" ++ to
 
